@@ -253,6 +253,25 @@ def check_momentum(r: Rel, g, T, sfx):
 
 def check_cache(r: Rel, g, sfx):
     """cached coordinate arrays == freshly computed (same object, same code: bitwise), getters consistent."""
+    # the maps are functions: they leave their (float ndarray) arguments alone - in particular the arrays handed out by the
+    # grid's own getters, which ARE the grid's cache - and give the same answer when asked again
+    try:
+        phys = g.getCoordinates()
+        comp = g.getCompactCoordinates()
+        before_p, before_c = [np.array(a, dtype=float) for a in phys], [np.array(a, dtype=float) for a in comp]
+        first = [np.array(a, dtype=float) for a in g.compactify(*phys)]
+        r.true(f"compactify-leaves-arguments-{sfx}", all(_same(a, b) for a, b in zip(phys, before_p)))
+        r.true(f"compactify-leaves-grid-coordinates-{sfx}", all(_same(a, b) for a, b in zip(g.getCoordinates(), before_p)))
+        again = [np.array(a, dtype=float) for a in g.compactify(*phys)]
+        r.true(f"compactify-repeatable-{sfx}", all(_same(a, b) for a, b in zip(first, again)))
+        d1 = [np.array(a, dtype=float) for a in g.decompactify(*comp)]
+        j1 = [np.array(a, dtype=float) for a in g.compactificationDerivatives(*comp)]
+        r.true(f"decompactify-leaves-arguments-{sfx}", all(_same(a, b) for a, b in zip(comp, before_c))
+               and all(_same(a, b) for a, b in zip(g.getCompactCoordinates(), before_c)))
+        d2 = [np.array(a, dtype=float) for a in g.decompactify(*comp)]
+        r.true(f"decompactify-repeatable-{sfx}", all(_same(a, b) for a, b in zip(d1, d2)) and all(np.all(np.isfinite(a)) for a in j1))
+    except Exception as e:  # noqa: BLE001
+        r.true(f"maps-on-getter-arrays-no-exception-{sfx}", False, error=repr(e)[:300])
     fresh = g.decompactify(g.chiValues, g.rzValues, g.rpValues)
     fresh_d = g.compactificationDerivatives(g.chiValues, g.rzValues, g.rpValues)
     names = ("xiValues", "pzValues", "ppValues")
@@ -650,14 +669,10 @@ MFPS = [1.0, 100.0]
 
 
 def _eom(grid, mfp, off_eq):
-    """An EOM carrying only what _updateGrid reads (no model needed)."""
-    from WallGo.equationOfMotion import EOM
+    """A real EOM (real constructor, stand-in thermodynamics / hydrodynamics: no model needed) on the given grid."""
+    from .. import wg
 
-    e = EOM.__new__(EOM)
-    e.grid = grid
-    e.meanFreePathScale = mfp
-    e.includeOffEq = off_eq
-    return e
+    return wg.construct_eom(grid=grid, meanFreePathScale=mfp, includeOffEq=off_eq)
 
 
 def _wallparams(name):
